@@ -31,6 +31,7 @@ func (ex *Exec) initState() *State {
 	f := ex.f
 	st := &State{pc: f.True(), heap: map[string]*Term{}, gen: 0, frontier: f.Var("A0", SInt), world: f.Var("world0", SInt)}
 	ex.assumes = append(ex.assumes, f.Ge(st.frontier, f.Int(1)))
+	ex.genFrontier[0] = st.frontier
 	return st
 }
 
